@@ -37,6 +37,7 @@ type Config struct {
 	CallRich    bool    // bias statements and expressions towards calls (C20)
 	Enter       bool    // weave a call to the host import enter(i32 funcIndex) into every function entry (ground truth for C20)
 	WASI        bool    // import a few wasi_snapshot_preview1 functions and use them
+	DebugSections [][]wasmenc.Custom // real DWARF section sets (LoadDebugSections) to attach instead of the minimal pair
 	Closer      bool    // import env.closer (i32)->i32: the host closes the CALLING module (exit code 7) when arg&7 == 0, and returns
 }
 
@@ -468,8 +469,15 @@ func (g *gen) module() {
 	if cfg.Customs && g.chance(35, "dwarf") {
 		// minimal well-formed DWARF (one compilation-unit header, empty abbreviation table): the
 		// engines then keep per-instruction source offsets and symbolise traps through them
-		m.Customs = append(m.Customs, wasmenc.Custom{Name: ".debug_abbrev", Data: []byte{0}},
-			wasmenc.Custom{Name: ".debug_info", Data: []byte{7, 0, 0, 0, 4, 0, 0, 0, 0, 0, 4}})
+		if len(cfg.DebugSections) > 0 && g.chance(60, "realdwarf") {
+			// DWARF of a real toolchain (compilation units with ranges, line programs): its addresses
+			// land on arbitrary instructions of this module, which is what a symbolizer must survive
+			m.Customs = append(m.Customs, cfg.DebugSections[g.intn(len(cfg.DebugSections), "dwarfset")]...)
+			g.stat("dwarf-real")
+		} else {
+			m.Customs = append(m.Customs, wasmenc.Custom{Name: ".debug_abbrev", Data: []byte{0}},
+				wasmenc.Custom{Name: ".debug_info", Data: []byte{7, 0, 0, 0, 4, 0, 0, 0, 0, 0, 4}})
+		}
 		g.stat("dwarf")
 	} else if cfg.Customs {
 		nc := g.rng(0, 3, "ncustom")
